@@ -34,10 +34,12 @@ def build(prop):
 def run(prop, tier):
     t0 = time.time()
     exe = build(prop)
+    planted = core.selftest(exe, 'the serialiser explorer (wrong reference byte)')
     res = core.run_slices(exe, ['--suite', prop, '--tier', tier], timeout=1500 if tier == 'thorough' else 600)
     rule, bounds = RULES[prop]
     core.finish(prop, tier, t0, res, rule=rule, bounds=bounds, assumptions=ASSUME,
-                recipe={'engine': 'ser', 'suite': prop}, replayer=make_replayer(exe))
+                recipe={'engine': 'ser', 'suite': prop}, replayer=make_replayer(exe),
+                extra_cov={'planted_bug_selftest': 'reference image wrong in one payload byte: %d mismatches reported, as required' % planted})
 
 
 def replay(prop, case):
